@@ -1999,6 +1999,17 @@ def clean_dictionary(ddct):
         if key in ddct and ddct[key] is None:
             ddct[key] = ""
 
+    linenumber = ddct.get("__line__", "?")
+    for key in ["format", "options", "attrs", "fattrs"]:
+        if key in ddct and ddct[key] is not None and \
+           not isinstance(ddct[key], dict):
+            raise RuntimeError(
+                "{} must be a dictionary around line {}".format(
+                    key, linenumber))
+    if "decl" in ddct and not isinstance(ddct["decl"], str):
+        raise RuntimeError(
+            "decl must be a string around line {}".format(linenumber))
+
     if "default_arg_suffix" in ddct:
         default_arg_suffix = ddct["default_arg_suffix"]
         if not isinstance(default_arg_suffix, list):
